@@ -604,6 +604,34 @@ def run(ctx, proof):
                             "values": (tab or [])[:8]}, limit=8)
                 cases.append((key, idx, n, seed, desc, tab, line, exc))
 
+    # ---------------- call history: "identically seeded calls return identical games" whatever was generated in between.
+    # The loop above asked for ascending player counts; ask again in DESCENDING order (after larger games were built) and
+    # interleaved with other families, and compare with the first answers.
+    first = {}
+    for (key, idx, n, seed, desc, tab, line, exc) in cases:
+        if tab is not None and exc is None and not NONDET(key):
+            first.setdefault((key, n), (seed, tab))
+    for (key, n) in sorted(first, key=lambda kn: (-kn[1], kn[0])):
+        seed, tab = first[(key, n)]
+        g, e = plain_call(key, n, seed)
+        ctx.evaluations += 1
+        ctx.count("determinism", "re-asked after other player counts")
+        if e is not None:
+            ctx.violation(f"GENERATORS['{key}']({n}, default_rng({seed})) raises {exc_summary(e)} when called again after games "
+                          f"with other player counts were generated (it succeeded the first time)",
+                          {"key": key, "n": n, "seed": seed, "order": "ascending n = 3.. first, then descending"})
+            continue
+        tab2, _f = game_table(g, n)
+        if tab2 is not None:
+            tab2 = [0.0 if x == 0 else x for x in tab2]
+            tab1 = [0.0 if x == 0 else x for x in tab]
+            if tab2 != tab1:
+                d = next(i for i in range(len(tab1)) if tab1[i] != tab2[i])
+                ctx.violation(f"GENERATORS['{key}']({n}, default_rng({seed})) returns a different game when asked again after games with "
+                              f"larger player counts were generated: coalition {d}: first {tab1[d]}, now {tab2[d]}",
+                              {"key": key, "n": n, "seed": seed, "first_table": tab1, "second_table": tab2,
+                               "calls_in_between": "every registered generator for n = %s" % sorted({kn[1] for kn in first})})
+
     ctx.coverage["implementation_and_oracle_s"] = round(time.time() - t_start, 1)
     ctx.coverage["keys_checked"] = len(keys) - len(skipped)
     ctx.coverage["keys_skipped"] = skipped
